@@ -3,6 +3,8 @@ from . import common, diffcommon, mergecommon, c02
 
 LEVEL = 'other'
 
+KNOWN = {'wf:local_diff:custom@outputs': 'C11-bundled-decision-diffs', 'wf:remote_diff:custom@outputs': 'C11-bundled-decision-diffs'}
+
 
 def _json_job(pairs):
     from contracts import specs
@@ -40,7 +42,7 @@ def run(res):
             res.violation(detail, {'replay_kind': 'call', 'module': 'checks.c11', 'function': 'check_json_pair', 'args': [a, b]})
     res.coverage['rule'] = 'generic JSON pairs as in C02;'
     diffcommon.run_diff_cases(res, {'C11'}, 'C11', {}, quick=(32, 80), thorough=(128, 300))
-    mergecommon.run_merge_cases(res, {'C03', 'C11'}, 'C11', {}, quick=(32, 60, 10), thorough=(96, 100, 60))
+    mergecommon.run_merge_cases(res, {'C03', 'C11'}, 'C11', KNOWN, quick=(32, 60, 10), thorough=(96, 100, 60))
     res.coverage['explanation'] = (
         'Proof part: wf_seq(result, len(a)) is a discharged postcondition of diff_from_lcs, diff_sequence_bruteforce, diff_sequence and '
         'diff_lists, and the builder order is a discharged postcondition of SequenceDiffBuilder.append (%d obligations, %d discharged). '
